@@ -78,7 +78,7 @@ pub fn plan(id: &str) -> Option<Plan> {
             id: "C02",
             level: "exploration",
             profiles: vec![MKT, MKT_F, ADM, TX, INTEG],
-            quick_runs: 2250,
+            quick_runs: 3000,
             thorough_runs: 36_000,
             rule: "seeded runs of the market profile (fault-free and fault-injecting halves); one evaluation = one (instruction, bank) pair whose totals or positions changed, judged bit-exactly; distinct = instruction kind x which totals changed x number of closed slots",
         },
@@ -86,7 +86,7 @@ pub fn plan(id: &str) -> Option<Plan> {
             id: "C16",
             level: "exploration",
             profiles: vec![MKT, MKT_F, ADM, INTEG],
-            quick_runs: 2000,
+            quick_runs: 3000,
             thorough_runs: 40_000,
             rule: "seeded runs of the market, admin and integration (real venue deposits / withdrawals against stub Solend, Kamino and Drift venues) profiles; one evaluation = one user account changed by a successful instruction, all structural invariants judged; distinct = instruction kind x #active slots x tag classes x account flags",
         },
@@ -94,7 +94,7 @@ pub fn plan(id: &str) -> Option<Plan> {
             id: "C04",
             level: "exploration",
             profiles: vec![MKT, MKT_F, ADM, INTEG],
-            quick_runs: 2800,
+            quick_runs: 4000,
             thorough_runs: 30_000,
             rule: "seeded runs; one evaluation = one accepted or health-rejected borrow/withdraw (main timeline or boundary fork) judged against the independent rational risk engine; distinct = ix kind x verdict x #positions x e-mode x zeroed-collateral x isolated x fork",
         },
@@ -134,7 +134,7 @@ pub fn plan(id: &str) -> Option<Plan> {
             id: "C05",
             level: "exploration",
             profiles: vec![MKT, MKT_F, INTEG],
-            quick_runs: 2400,
+            quick_runs: 3600,
             thorough_runs: 45_000,
             rule: "seeded runs of the market profile (fault-free and fault-injecting halves); one evaluation = one classic liquidation (accepted, or rejected with a liquidation error), judged against the reference: eligibility, health improvement, no flips, liquidator health, 95/97.5/2.5 split; boundary liquidator bisects the largest acceptable seize amount on forks; distinct = verdict x decimals pair x liquidator prior position x fork",
         },
@@ -142,7 +142,7 @@ pub fn plan(id: &str) -> Option<Plan> {
             id: "C07",
             level: "exploration",
             profiles: vec![MKT, MKT_F, ADM],
-            quick_runs: 3200,
+            quick_runs: 6000,
             thorough_runs: 40_000,
             rule: "seeded runs of the market profile (fault-free and fault-injecting halves); one evaluation = one bankruptcy settlement (accepted or rejected) judged against the reference bankruptcy spec in its three insurance regimes, plus killed-state permanence checked in every later state; distinct = regime x signer class x #depositors",
         },
@@ -150,7 +150,7 @@ pub fn plan(id: &str) -> Option<Plan> {
             id: "C10",
             level: "exploration",
             profiles: vec![TX, TX_F, TX, TX_F, INTEG],
-            quick_runs: 2000,
+            quick_runs: 3000,
             thorough_runs: 50_000,
             rule: "seeded runs of the transaction-shape profile (shape faults: missing/misplaced/repeated start or end, forbidden inner instruction, foreign/failing program, CPI wrapper; fault-free and fault-injecting halves) and of venue-bank worlds (brackets whose seizure leg is a venue withdrawal); one evaluation = one transaction containing a receivership start or end (committed or rejected); committed ones must be in the reference acceptor's language and satisfy the end-state inequalities on the reference model; distinct = transaction shape word x verdict",
         },
@@ -166,7 +166,7 @@ pub fn plan(id: &str) -> Option<Plan> {
             id: "C12",
             level: "exploration",
             profiles: vec![ADM, ADM_F, TX, INTEG],
-            quick_runs: 2400,
+            quick_runs: 3600,
             thorough_runs: 40_000,
             rule: "seeded runs of the administrator / pause profiles interleaved with market activity (operator churn; fault-free and fault-injecting halves); one evaluation = one successful administrator instruction judged by field-level byte diff of the bank against the role's allowed-write mask (plus: no other bank, group, vault or user account moves), or one deleverage-bracket transaction judged by the reference acceptor; freeze permanence and the daily deleverage window are history checks; distinct = admin ix kind x frozen x set of changed fields, or bracket shape x verdict",
         },
@@ -198,7 +198,7 @@ pub fn plan(id: &str) -> Option<Plan> {
             id: "C08",
             level: "fault_enumeration",
             profiles: vec![AUTH],
-            quick_runs: 1500,
+            quick_runs: 2500,
             thorough_runs: 8_000,
             rule: "two-group worlds running market, transaction-shape and administrator activity; for each sampled accepted transaction (<= 60 per run, biased to instruction kinds not yet swept) EVERY single mutation is executed on a fork: each role-signer slot unsigned and re-signed by every identity in the world, each bound slot replaced by each applicable foreign twin (other group/bank/vault/authority PDA, byte-identical clone owned by another program, clone at a wrong address, wrong account type, other token program, fake sysvar, other stored destination); one evaluation = one mutation; distinct = ix kind x slot x mutation kind x verdict",
         },
@@ -206,7 +206,7 @@ pub fn plan(id: &str) -> Option<Plan> {
             id: "C09",
             level: "fault_enumeration",
             profiles: vec![ORA, ORA_F, MKT_F, ADM, INTEG],
-            quick_runs: 2000,
+            quick_runs: 3000,
             thorough_runs: 30_000,
             rule: "oracle-fault profile: 16 Pyth / 12 Switchboard / fixed fault kinds (staleness at max_age -1/0/+1, confidence at 0 / max boundary / clamp region / over max, zero / negative / out-of-range price, partial verification, wrong discriminator, truncated, wrong owner, EMA divergence, omitted/misplaced/surplus oracle accounts) placed on banks someone holds a position in, then an operation depending on that price; after every oracle write and every clock advance the real price adapter is executed on a fork (pulse_bank_price_cache) and its verdict and value compared with the reference; one evaluation = one adapter probe or one judged borrow/withdraw/liquidation/bankruptcy; distinct = oracle kind x reference classification x verdict x trigger",
         },
@@ -222,7 +222,7 @@ pub fn plan(id: &str) -> Option<Plan> {
             id: "C20",
             level: "exploration",
             profiles: vec![INTEG, INTEG, INTEGADM],
-            quick_runs: 1500,
+            quick_runs: 3000,
             thorough_runs: 24_000,
             rule: "venue-bank worlds (real marginfi venue deposits / withdrawals and the six real exchange-rate-adjusted price adapters against independently computing stub venues whose rate rises over simulated time, venue accounts refreshed or - as a fault - left stale, extreme venue states); one evaluation = one adapter probe on a fork after a venue write / clock advance (staleness verdict, adjusted price <= price x exact rate, truncation bound, monotonicity pair, overflow reported) or one venue deposit / withdrawal judged for 'no value from conversion' plus the cover invariant after every transaction; distinct = oracle setup x venue verdict x trigger, instruction x rate class",
         },
